@@ -6,23 +6,23 @@ CHECKS = {
  "C13": dict(
    technique="Coq proof (refinement of the KeyedList model to a plain-list spec, invariant, atomicity; unbounded operation sequences, abstract items) + differential correspondence model vs implementation evaluated by vm_compute",
    text="Theorems C13_refines_plain_list / C13_failed_operation_changes_nothing / C13_key_access_is_linear_scan / C13_keys_unique are proved in Coq for every operation sequence over abstract items and key functions (closed under the global context). The hand-written model (coq/KL/Model.v) is tied to spec_classes/types/keyed.py on every run by executing model, specification and implementation on the same generated cases (four item universes, typed and untyped, exhaustive depth-1 small scope, sampled depth-2, random sequences) and comparing output, _list and _dict after every operation.",
-   note="Trusted: Coq kernel + vm_compute; the hand-written model and Python list/dict/mixin semantics (validated by correspondence only); harness encoders. int arguments to [] are list indices; keys()/items() compared as sets.",
+   note="Trusted: Coq kernel + vm_compute; the hand-written model and Python list/dict/mixin semantics (validated by correspondence only); harness encoders. int arguments to [] are list indices; keys()/items() compared as sets. Universes include falsy items and a falsy key (empty string) reaching the default key extraction; results of + / reflected + / slices are identity-checked (a new container), empty operands included.",
    design="4 C13"),
 }
 CHECKS["C01"] = dict(
    technique="Coq proof (frame theorem over a heap model of the instance machinery: every copy-on-write call writes only cells allocated during the call; Hoare-style judgement, mutual induction on fuel) + differential correspondence model vs implementation on canonical object graphs evaluated by vm_compute",
    text="Theorems C01_cow_call_writes_no_existing_cell / C01_deepcopy_writes_no_existing_cell / C01_core_respects_watermark are proved in Coq for every class table without do_not_copy=True classes (frozen included), every heap, receiver, helper, argument vector (valid or not), every outcome (return or exception) and every callback failure point: a call without _inplace=True writes no heap cell that existed before it. The model (coq/Inst/Model.v, ~1000 lines following mutation.py / core.py / scalar.py / toplevel.py / collections/*.py branch by branch) is tied to /repo on every run: generated class tables and operation histories are executed by model and implementation, and the canonical object graph (content and sharing) of all live roots is compared after every operation; the C01 oracle (pre-existing graph unchanged after a copy-on-write call) is evaluated in Coq on the implementation's own observations.",
-   note="Trusted: Coq kernel + vm_compute; hand-written model and Python container/deepcopy/attribute semantics (validated by correspondence only); harness graph canonicaliser; callback purity contract. Crash points: user-callback failures (any invocation in the theorem; 1st..3rd in the correspondence) and every error the model can raise are covered by the theorem; exceptions injected at executed lines of library code are explored on the implementation only (oracle: pre-existing graph unchanged), not proved. KeyedList/KeyedSet-typed attributes, masked attributes, float/Literal/Tuple annotations, two spec parents and do_not_copy=True classes are outside the model; they are explored on the implementation only (keyed attributes with and without item preparers, classes derived from a do_not_copy=True class, and a class zoo on which every generated helper, found by introspection, is called with an assorted argument pool incl. values whose deep copy fails), with the oracle 'receiver, arguments and keyword values are the same object graph with equal contents afterwards' evaluated in Python. Plain subclasses overriding defaults, Union and Optional[spec] attributes are inside model and correspondence.",
+   note="Trusted: Coq kernel + vm_compute; hand-written model and Python container/deepcopy/attribute semantics (validated by correspondence only); harness graph canonicaliser; callback purity contract. Crash points: user-callback failures (any invocation in the theorem; 1st..3rd in the correspondence) and every error the model can raise are covered by the theorem; exceptions injected at executed lines of library code are explored on the implementation only (oracle: pre-existing graph unchanged), not proved. KeyedList/KeyedSet-typed attributes, masked attributes, float/Literal/Tuple annotations, two spec parents and do_not_copy=True classes are outside the model; they are explored on the implementation only (keyed attributes with and without item preparers, classes derived from a do_not_copy=True class, and a class zoo on which every generated helper, found by introspection, is called with an assorted argument pool incl. values whose deep copy fails), with the oracle 'receiver, arguments and keyword values are the same object graph with equal contents afterwards' evaluated in Python. Plain subclasses overriding defaults, Union and Optional[spec] attributes are inside model and correspondence. Implementation-level explorations added in rounds five to seven (oracle: structural snapshot of receiver, arguments and keyword values unchanged): by-value addressing with an instance (byvalue_probe, also through the model), validated/bounded types with raising validators (c04_validated), an existing instance handed over with several keywords (c04_replacement), preparers resolving a name to an object already held (c04_existing).",
    design="4 C01")
 CHECKS["C04"] = dict(
    technique="Coq proof (frame theorem: every constructor call, copy-on-write call and deepcopy, and every in-place operation on a frozen instance, writes no pre-existing heap cell whatever the outcome; the full statement is refuted for multi-keyword in-place update/transform and recorded as a known finding) + differential correspondence with failure injection, evaluated by vm_compute",
    text="C04_atomic_partial_cow_and_constructors, C04_atomic_partial_frozen_inplace and C04_constructor_result_is_fresh are proved for every class table (no do_not_copy=True classes), heap, argument vector, callback failure point and error. The full statement (every operation, including _inplace=True on non-frozen receivers) is false of the code: C04_multi_keyword_inplace_update_refuted exhibits update(_inplace=True, a=ok, b=bad) committing a before failing on b (open finding). C04_atomic_partial_assignment and C04_atomic_partial_inplace_attribute_and_element_helpers prove the same for obj.a = v and for every attribute-level and element-level helper called with _inplace=True (with_/update_/transform_/reset_<attr>, with_/update_/transform_/without_<item> on list/dict/set attributes) on any instance when nothing is invalidated by the attribute; C04_atomic_partial_inplace_update_single_keyword / _transform_single_keyword do so for the top-level update(a=v, _inplace=True) / transform(a=f, _inplace=True) with exactly one keyword. The remaining in-place cases (attributes with dependants, top-level update/transform with several keywords, reset) are decided by the correspondence (model = implementation on canonical object graphs after every operation, ~60% of generated operations failing: ill-typed values at every position, missing index/key/element, unknown keywords, callbacks raising at their 1st..3rd invocation) and the C04 oracle evaluated in Coq on the implementation's own observations (pre-existing graph unchanged after an exception).",
-   note="Trusted: Coq kernel + vm_compute; hand-written model (validated by correspondence); harness canonicaliser; callback purity. Partial: in-place operations are covered by theorems only when the written attribute has no dependants (and for top-level update/transform with one keyword); with dependants, several keywords or reset(_inplace=True) the statement is false of the code (KNOWN_FINDINGS.json: four open findings, each with a signature). Outside the model, explored on the implementation only with the oracle 'after an exception receiver and arguments are the same object graph with equal contents' evaluated in Python: KeyedList/KeyedSet attributes (duplicate keys, ill-typed items, key-valued and None positions, item preparers failing at the n-th item), and a class zoo (float/Literal/Union/Tuple attributes, cached spec_property, two levels of plain subclassing, two spec parents, classes derived from a do_not_copy=True class, aborted deep copies) on which every generated helper, assignment and deletion is called with an assorted argument pool.",
+   note="Trusted: Coq kernel + vm_compute; hand-written model (validated by correspondence); harness canonicaliser; callback purity. Partial: in-place operations are covered by theorems only when the written attribute has no dependants (and for top-level update/transform with one keyword); with dependants, several keywords or reset(_inplace=True) the statement is false of the code (KNOWN_FINDINGS.json: four open findings, each with a signature). Outside the model, explored on the implementation only with the oracle 'after an exception receiver and arguments are the same object graph with equal contents' evaluated in Python: KeyedList/KeyedSet attributes (duplicate keys, ill-typed items, key-valued and None positions, item preparers failing at the n-th item), and a class zoo (float/Literal/Union/Tuple attributes, cached spec_property, two levels of plain subclassing, two spec parents, classes derived from a do_not_copy=True class, aborted deep copies) on which every generated helper, assignment and deletion is called with an assorted argument pool. Implementation-level explorations added in rounds five to seven (oracle: after an exception the structural snapshot of receiver, arguments, keyword values and registry objects is unchanged; recorded findings excepted by signature): c04_validated (validated/bounded types, validators failing at their n-th invocation), c04_replacement (replacement instance + several keywords, the rejected one later), c04_existing (preparers returning already-held objects; empty containers with a failure after the element was added, also through the model: empty_container_cases).",
    design="4 C04")
 CHECKS["C07"] = dict(
    technique="Coq proof (every in-place operation on a frozen instance writes no pre-existing cell and deletion raises FrozenInstanceError; copy-on-write calls on frozen instances write no pre-existing cell) + differential correspondence incl. frozen/non-frozen twin runs of the implementation",
    text="C07_inplace_operation_on_frozen_instance_writes_nothing (assignment, deletion, every helper with _inplace=True: no pre-existing heap cell is written, for every class table, heap, arguments and outcome), C07_delete_on_frozen_instance_raises_FrozenInstanceError, C07_write_reaching_the_frozen_guard_raises and C07_cow_call_on_frozen_instance_writes_nothing are proved in Coq over the instance model. C07_inplace_operation_on_another_receiver_leaves_frozen_instance_untouched / C07_element_helper_on_another_receiver_... (instances of the C08 confinement theorems) prove that no in-place operation on ANOTHER receiver - e.g. a nested update through a parent - writes a frozen instance. For the 'evolvable by copy' half, C07_cow_with_scalar_partial / C07_twin_with_scalar_partial prove, for with_<a>(scalar) on flat instances of ANY class, frozen or not: the result is a fresh instance, its abstraction is the specification's, it is frozen again (the _thawed window set and removed the flag on the copy), and a table and its twin with the frozen flags cleared give abstractly equal results. The model is tied to /repo on every run (canonical object graphs after every operation on generated frozen class tables); the C07 oracle (a frozen instance never changes; copy-on-write calls leave it untouched) is evaluated in Coq on the implementation's observations; the twin relation (same copy-on-write history on the class with the frozen flag cleared gives the same object graphs) is checked implementation against implementation.",
-   note="Trusted: Coq kernel + vm_compute; hand-written model; harness. Partial: the twin simulation is proved for with_<a>(scalar) on flat instances only; for every other helper and for nested receivers it is validated by twin runs of the implementation, not proved. Interpretation: argument-validation errors may pre-empt FrozenInstanceError; no-op calls (_if=False, UNCHANGED) do not raise; update(_new_value, _inplace=True) replaces the receiver by another object and is outside the theorem.",
+   note="Trusted: Coq kernel + vm_compute; hand-written model; harness. Partial: the twin simulation is proved for with_<a>(scalar) on flat instances only; for every other helper and for nested receivers it is validated by twin runs of the implementation, not proved. Interpretation: argument-validation errors may pre-empt FrozenInstanceError; no-op calls (_if=False, UNCHANGED) do not raise; update(_new_value, _inplace=True) replaces the receiver by another object and is outside the theorem. Implementation-level probes: frozen / non-frozen twin exploration over a class zoo (an in-place call that changes the twin must raise FrozenInstanceError on the frozen instance and change nothing; copy-on-write calls have the twin's outcome) and c07_chain (inheritance of the frozen flag along chains of three and four spec / plain classes with frozen= stated, withdrawn or unsaid at every level; assignments to names that are not managed attributes on frozen instances).",
    design="4 C07")
 NOT_YET = {}
 def load_fragments():
